@@ -119,9 +119,9 @@ func init() {
 		"internal/race.ReadRange":                   retNil,
 		"internal/race.WriteRange":                  retNil,
 		"internal/race.Errors":                      func(fr *frame, a []value) value { return 0 },
-		"internal/godebug.(*Setting).Value":         func(fr *frame, a []value) value { return "" },
-		"internal/godebug.(*Setting).IncNonDefault": retNil,
-		"internal/godebug.(*Setting).Name":          func(fr *frame, a []value) value { return "" },
+		"(*internal/godebug.Setting).Value":         func(fr *frame, a []value) value { return "" },
+		"(*internal/godebug.Setting).IncNonDefault": retNil,
+		"(*internal/godebug.Setting).Name":          func(fr *frame, a []value) value { return "" },
 		"internal/godebug.New":                      func(fr *frame, a []value) value { return (*value)(nil) },
 		"runtime.GC":                                retNil,
 		"runtime.Gosched":                           func(fr *frame, a []value) value { fr.i.sched.yieldAll(); return nil },
